@@ -159,9 +159,9 @@ def c15(ctx):
 SIG_INV = ["Total", "AcceptIffClean", "OtherBranchesIrrelevant", "FalsLocal", "FaultNeverAccepted", "ItemCount", "CommitFirst", "Shape"]
 
 
-def sig_consts(mode, br, rep, term, ns, nb, terms, wraps=("min", "full"), faults=(0,), names=(20,)):
+def sig_consts(mode, br, rep, term, ns, nb, terms, wraps=("min", "full"), faults=(0,), names=(20,), runs=(1,)):
     return {"MaxBr": br, "MaxRep": rep, "MaxTerm": term, "NS": ns, "NB": nb, "MaxTerms": terms, "Mode": mode, "Wraps": list(wraps),
-            "Faults": list(faults), "NameLens": list(names)}
+            "Faults": list(faults), "NameLens": list(names), "Runs": list(runs)}
 
 
 SIGTRACE_CFG = """SPECIFICATION TraceSpec
@@ -176,6 +176,7 @@ CONSTANTS
   Wraps = {"min"}
   Faults = {0}
   NameLens = {20}
+  Runs = {1}
 CONSTRAINT Mark
 POSTCONDITION TraceAccepted
 CHECK_DEADLOCK FALSE
@@ -210,6 +211,10 @@ def c14(ctx):
     # proper prefix / an extension: rejected whenever the names differ (and accepted under the same name)
     jobs.append(lambda: gen(ctx, "Sigma", sig_consts("name", 2, 2, 2, 2, 2, 2 if q else 3, mini, names=(0, 1, 63, 64, 65, 200)), "C14_names",
                             invariants=SIG_INV + ["Emit"], workers=W))
+    # object re-use: the same Prover closure run 2 (thorough: 2 and 4) times, the same Verifier closure checking every
+    # proof, a second Prover of the same Predicate value for another branch; hash and deniable mode
+    jobs.append(lambda: gen(ctx, "Sigma", sig_consts("sat", 2, 2, 2, 2, 2, 3 if q else 4, both, runs=(2,) if q else (2, 4)), "C14_reuse",
+                            invariants=SIG_INV + ["Emit"], workers=W))
     if not q:   # trivial Or / And nodes kept ("full" wrapping) on the smaller universes
         jobs += [ex("sat", 5, both, "C14_sat_wraps"), ex("mut", 4, both, "C14_mut_wraps")]
     outs = par(ctx, jobs)
@@ -221,7 +226,8 @@ def c14(ctx):
     ctx.run_vh("sigma", ["-in", outs[3], "-max", 800 if q else 12000, "-deniable", 2], binary=b)
     ctx.run_vh("sigma", ["-in", outs[4], "-max", 1500 if q else 8000, "-deniable", 1], binary=b)
     ctx.run_vh("sigma", ["-in", outs[5], "-deniable", 0], binary=b)
-    for bh in outs[6:]:
+    ctx.run_vh("sigma", ["-in", outs[6], "-max", 1500 if q else 12000, "-deniable", 2], binary=b)
+    for bh in outs[7:]:
         ctx.run_vh("sigma", ["-in", bh, "-max", 12000, "-deniable", 3], binary=b)
     if ctx.cov["skipped"].get("deniable-session-timeout"):
         raise Broken("%d deniable clique sessions did not terminate within 5 minutes" % ctx.cov["skipped"]["deniable-session-timeout"])
@@ -260,6 +266,7 @@ def c14(ctx):
         "exchanged}; shapes up to 4 x 4 x 3 over 4 variables and 4 bases by -simulate. Each case is replayed with proof.HashProve/HashVerify and (every "
         "2nd-4th case) with proof.DeniableProver among 2-3 participants over a harness clique context whose router alters participant 0's messages, "
         "and with the clique transport failing for every participant from round 1, 2 or 3 on (trees with <= 3 / 4 terms, honest and falsified provers), "
+        "with the same Prover / Verifier closures run 2 (4) times and a second Prover of the same Predicate value for another branch, "
         "on Ed25519, P-256 and BN256 G1; the real proof length must equal the item list the specification derives; distinct = (suite, behaviour, mode)",
         ASSUME_CASES + [
             "every public point is defined from the model's secrets, so branch truth is decided by the model; a falsified point is an unrelated random point",
